@@ -93,3 +93,71 @@ EXTRA["C13"] = {
             "runtime_type modelled as determined by the type name. Functions, closures and namespaces are outside.",
     "design_ref": "DESIGN.md section 6, C13",
 }
+
+_LEX = ("the real lex / lex_between (lex.rs) executed on a symbolic source text, each character an arbitrary Unicode scalar "
+        "value whose UTF-8 length class is decided by solver-checked forking, with the four lazy_static regexes compiled by "
+        "the real regex-automata crate from the pattern literals in lex.rs and simulated as byte-level Thompson NFAs "
+        "(leftmost-first), LinePositions as a model")
+
+EXTRA["C01"] = {
+    "text": "Bounded symbolic model checking of the lexer, where byte offsets meet chars: " + _LEX + ". Decided for every "
+            "source of 0..2 (quick) / 0..3 characters: no panic obligation is satisfiable (every &s[a..b] on char "
+            "boundaries, no index or arithmetic panic) and the main loop terminates within the unwinding bound. "
+            "Counterexamples are written to a file and run through `garden check` (exit 101 confirms).",
+    "note": "Trusted: rsx, the NFA simulation (validated each run against the real lexer through `garden verif lex`), z3. "
+            "The parser, checker and formatter are recursive descent over token vectors and Rc trees and are outside "
+            "the claim.",
+    "design_ref": "DESIGN.md section 6, C01",
+}
+
+EXTRA["C23"] = {
+    "text": "Bounded symbolic model checking of token positions and Position::merge: (1) " + _LEX + "; for every token "
+            "and comment position on every path z3 decides start <= end <= len on char boundaries, line_number = LF "
+            "count before start, column = bytes since the last LF, end_line_number / end_column likewise for the end "
+            "offset (sources of 2 arbitrary characters and 3 over an 8-symbol alphabet with quote, LF, backslash, a "
+            "2-byte letter; thorough 3 arbitrary / 4 over the alphabet). (2) the real Position::merge on two fully "
+            "symbolic positions consistent w.r.t. uninterpreted monotone line/column functions yields a consistent "
+            "position. Replay through `garden verif lex` against an independent byte-level oracle.",
+    "note": "Trusted: rsx, NFA simulation, z3. Positions built elsewhere (Position::todo, diagnostics widened to a line, "
+            "LSP ranges, JSON rendering) are outside the claim.",
+    "design_ref": "DESIGN.md section 6, C23",
+}
+
+EXTRA["C29"] = {
+    "text": "Bounded symbolic model checking of the LSP conversion functions (lsp.rs): offset_to_lsp_position, "
+            "line_char_to_offset and whole_document_range executed on a symbolic document of 0..3 (quick) / 0..4 "
+            "characters, each any Unicode scalar value (LF, CR, 1-4 byte UTF-8, 1-2 unit UTF-16 all arise). Decided: "
+            "offset -> (line, UTF-16 column) -> offset is the identity at every char boundary; line_char_to_offset "
+            "returns a char boundary inside the document for arbitrary (line, character); the end of "
+            "whole_document_range converts back to the document length; no slice panic. Replay through "
+            "`garden verif lsp-conv`.",
+    "note": "Trusted: rsx, str/char models (rfind, find, lines, encode_utf16, char_indices), z3. Equality of "
+            "server-returned edits with the CLI refactorings (whole handlers) is outside the claim.",
+    "design_ref": "DESIGN.md section 6, C29",
+}
+
+EXTRA["C09"] = {
+    "text": "Bounded symbolic model checking of the command-action kernel of the JSON session: start states are the idle "
+            "state and, for every expression kind and call form, the top-level state in which the real dispatcher "
+            "stopped with an error (step driver + real restore_stack_frame). From each, the real handle_run_request "
+            "arms for :resume / :skip / :abort / :replace are executed (1 command quick, 2 thorough) followed by "
+            ":resume, each running the real eval loop on whatever is pending. Decided: no panic obligation is reachable "
+            "and every command returns one Response. Candidates are replayed as scripted `garden json` sessions (every "
+            "request answered, a final probe still answered).",
+    "note": "Trusted: rsx, std models, z3; pending sub-expressions evaluate to one fresh symbolic value. The reader "
+            "thread, stdin framing, serde_json and the ~25 printing commands of run_command are outside the claim; quick "
+            "uses one representative built-in per call form.",
+    "design_ref": "DESIGN.md section 6, C09",
+}
+
+EXTRA["C12"] = {
+    "text": "Bounded symbolic model checking of the string-literal kernel of value printing: for a symbolic string of "
+            "0..2 (quick) / 0..3 characters, each any Unicode scalar value, the real escape_string_literal is executed, "
+            "its output followed by a context (nothing, or a delimiter and one arbitrary character) is lexed by the real "
+            "lexer (STRING_RE as regex-automata NFA) and the first token fed to the real unescape_string. Decided: the "
+            "first token is exactly the escaped literal and unescaping returns the original string with no diagnostic. "
+            "Replay: print a list containing the string with string_repr and evaluate the printed text.",
+    "note": "Trusted: rsx, NFA simulation, z3. Float/integer printing (std formatting) and the list/tuple/dict/struct "
+            "templates around the elements, and dict key ordering, are outside this kernel.",
+    "design_ref": "DESIGN.md section 6, C12",
+}
